@@ -9,7 +9,9 @@ validate dimension values before use (C09.e); static file serving refuses dot se
 (C09.f).
 Added in round 4: the directory of a cache follows the documented precedence and a relative
 `filename` of the single-file backends is placed below it, decided by partial evaluation for sample
-configurations (C09.j)."""
+configurations (C09.j).
+Added in round 5: the location methods of the cache configuration do not write into the shared
+configuration (C09.k); provenance follows what is put into a local collection."""
 import ast
 import re
 
